@@ -9,29 +9,37 @@ import (
 type Params struct {
 	Omission bool // the tap itself omits 1..2 data segments
 	Wide     bool // report-only: reorderings beyond what C19 promises (SYN/FIN swaps, larger displacement, FIN before earlier data)
+	Snaplen  bool // the capture is taken with a snap length below the size of some data frames (no fragmenting router)
+	NoSYN    bool // the tap omits the client's SYN, or SYN and SYN-ACK, of most connections: the capture starts inside the handshake
+	Large    bool // a connection with segments of 30..64 KiB (TSO-like, 40..260 KiB per direction), one of them overtaken by the next 1..3 or omitted by the tap
 }
 
 // Fault kinds that can fire in a run.
 const (
-	FLossBefore   = iota // packet lost before the tap: the capture holds only the retransmission
-	FLossAfter           // packet lost after the tap: the capture holds the original and the retransmission
-	FDuplicate           // the network duplicated a packet in front of the tap
-	FReorder             // a packet was overtaken by 1..3 later packets of its direction
-	FReorderData         // ... a data segment overtaken by later data of the same direction
-	FFragment            // the router fragmented a datagram
-	FFragReorder         // two neighbouring fragments of a datagram swapped
-	FFragLoss            // one fragment lost before the tap (the datagram is retransmitted whole)
-	FTapOmission         // the tap omitted a data segment (all or one of its fragments)
-	FSeqWrap             // a direction whose sequence numbers pass 2^32 between SYN and FIN
-	FRetx                // retransmission after a timeout
-	FSpuriousRetx        // ... of a segment that had in fact arrived (its ACK was late or lost)
-	FRetxReseg           // ... with different segment boundaries (overlap with identical content)
-	FWideSynFin          // wide only: SYN/FIN packet held back or overtaken
-	FEthPad              // short Ethernet frame padded to 60 bytes
+	FLossBefore     = iota // packet lost before the tap: the capture holds only the retransmission
+	FLossAfter             // packet lost after the tap: the capture holds the original and the retransmission
+	FDuplicate             // the network duplicated a packet in front of the tap
+	FReorder               // a packet was overtaken by 1..3 later packets of its direction
+	FReorderData           // ... a data segment overtaken by later data of the same direction
+	FFragment              // the router fragmented a datagram
+	FFragReorder           // two neighbouring fragments of a datagram swapped
+	FFragLoss              // one fragment lost before the tap (the datagram is retransmitted whole)
+	FTapOmission           // the tap omitted a data segment (all or one of its fragments)
+	FSeqWrap               // a direction whose sequence numbers pass 2^32 between SYN and FIN
+	FRetx                  // retransmission after a timeout
+	FSpuriousRetx          // ... of a segment that had in fact arrived (its ACK was late or lost)
+	FRetxReseg             // ... with different segment boundaries (overlap with identical content)
+	FWideSynFin            // wide only: SYN/FIN packet held back or overtaken
+	FEthPad                // short Ethernet frame padded to 60 bytes
+	FSnapTrunc             // a frame longer than the snap length: only its head is in the capture
+	FSnapCut               // ... and TCP payload bytes are cut off
+	FSynOmission           // the tap omitted a SYN or SYN-ACK
+	FLargeSegment          // a data segment of 30 KiB or more passed the tap
+	FLargeBehindGap        // ... while an earlier segment of its direction was still held back or had been omitted
 	NumFaults
 )
 
-var FaultNames = [NumFaults]string{"loss_before_tap", "loss_after_tap", "duplicate", "reorder", "reorder_data", "fragment", "frag_reorder", "frag_loss", "tap_omission", "seq_wrap", "retransmission", "spurious_retx", "retx_resegment", "wide_synfin_reorder", "eth_padding"}
+var FaultNames = [NumFaults]string{"loss_before_tap", "loss_after_tap", "duplicate", "reorder", "reorder_data", "fragment", "frag_reorder", "frag_loss", "tap_omission", "seq_wrap", "retransmission", "spurious_retx", "retx_resegment", "wide_synfin_reorder", "eth_padding", "snaplen_truncation", "snaplen_payload_cut", "syn_omission", "large_segment", "large_segment_behind_gap"}
 
 type Host struct {
 	IP    [4]byte
@@ -52,6 +60,10 @@ type Conn struct {
 	Ends  [2]*Endpoint // client, server
 	Start int64
 	paths [2]path
+	// omitSyn: 0 = the tap sees the whole handshake, 1 = it omits the
+	// client's SYN (every copy), 2 = every SYN and SYN-ACK
+	omitSyn int
+	jumbo   bool
 }
 
 // path is one direction of one connection through the network.
@@ -61,6 +73,7 @@ type path struct {
 	lastTap     int64
 	lastDeliver int64
 	held        []*heldPkt
+	gapOpen     bool // the tap omitted a data segment of this direction
 }
 
 type heldPkt struct {
@@ -104,6 +117,7 @@ type TapRec struct {
 	Frag    int // 0-based fragment index
 	NFrag   int
 	Omitted bool // omitted by the tap: not part of the capture
+	Cut     int  // payload bytes at the end of the segment that the snap length cut off (set by WriteCapture)
 }
 
 type event struct {
@@ -135,6 +149,7 @@ type World struct {
 	fragReorder bool
 	dataPassed  int
 	omitAt      []int
+	omitEnabled bool
 	LastFaultEv int
 }
 
@@ -203,6 +218,11 @@ func Generate(c Chooser, p Params) *World {
 		w.faultLevel = pick(c, 0, 0, 1, 1, 2)
 	}
 	nConn := pick(c, 1, 1, 2, 1, 3, 2, 1, 4, 2, 1, 5, 1)
+	if p.Large {
+		w.faultLevel = pick(c, 1, 0, 1, 2, 0)
+		nConn = pick(c, 1, 1, 2, 1, 3)
+		w.omitEnabled = chance(c, 1, 2)
+	}
 	nHost := rng(c, 2, 4)
 	runSize := pick(c, 0, 0, 1, 0, 2, 0, 0, 1) // 0: every stream < 2 KiB, 1: up to 16 KiB, 2: up to 64 KiB
 	for i := 0; i < nHost; i++ {
@@ -244,10 +264,25 @@ func Generate(c Chooser, p Params) *World {
 		w.MTU = pick(c, 576, 68, 296, 1006, 1280, 1500, 68+c.Intn(1433))
 		w.fragReorder = chance(c, 1, 3)
 	}
+	if p.Snaplen {
+		w.MTU = 0 // what a reader should make of a truncated fragment is not stated
+	}
+	if p.Large && w.MTU > 0 {
+		if w.MTU < 1006 {
+			w.MTU = 1500 // at most ~45 fragments per segment
+		}
+		if chance(c, 1, 2) {
+			w.MTU = 0 // mostly captured unfragmented, as with segmentation offload
+		}
+	}
 	if w.MTU == 0 && chance(c, 1, 2) {
 		w.ipFlags = ipDF
 	}
+	if w.omitEnabled {
+		w.omitAt = []int{c.Intn(4)}
+	}
 	if p.Omission {
+		w.omitEnabled = true
 		w.omitAt = []int{c.Intn(6)}
 		if chance(c, 1, 3) {
 			w.omitAt = append(w.omitAt, w.omitAt[0]+1+c.Intn(8))
@@ -256,6 +291,14 @@ func Generate(c Chooser, p Params) *World {
 	var start int64
 	for i := 0; i < nConn; i++ {
 		cn := &Conn{Idx: i}
+		if p.NoSYN {
+			cn.omitSyn = pick(c, 1, 2, 1, 0, 2)
+		}
+		cn.jumbo = p.Large && (i == 0 || chance(c, 1, 4))
+		jumboSide := 0
+		if cn.jumbo {
+			jumboSide = c.Intn(3) // 2 = both directions
+		}
 		var ch, sh *Host
 		var cp, sp uint16
 		for try := 0; ; try++ {
@@ -268,6 +311,9 @@ func Generate(c Chooser, p Params) *World {
 			sp = uint16(pick(c, 80, 443, 53, 1935, 22, 8080, 1+c.Intn(65535), 1+c.Intn(1023)))
 			if try > 20 {
 				cp = uint16(20000 + 10*i + try)
+			}
+			if cn.jumbo && sp == 1935 {
+				sp = 1936 // fq's rtmp decoder spends ~100 ms on 200 KiB of noise; stream formats are not the subject here
 			}
 			ok := !(ch == sh && cp == sp)
 			for _, o := range w.Conns {
@@ -323,6 +369,10 @@ func Generate(c Chooser, p Params) *World {
 			case 4:
 				n = 16384 + c.Intn(49153)
 			}
+			e.jumbo = cn.jumbo && (jumboSide == 2 || jumboSide == side)
+			if e.jumbo {
+				n = 40000 + c.Intn(220001)
+			}
 			e.Data, e.payStyle = genPayload(c, n, byte(0x40+i*2+side))
 			e.advMSS = pick(c, 1460, 536, 1220, 1460, 8960, 65495, 100, 1400)
 			e.tsOpt = tsBoth || chance(c, 1, 8)
@@ -359,6 +409,15 @@ func Generate(c Chooser, p Params) *World {
 			if w.MTU > 0 && m > 6*w.MTU {
 				m = 6 * w.MTU
 			}
+			if e.jumbo {
+				// TSO-like: one segment far larger than any MTU
+				m = 30000 + c.Intn(35484)
+				e.smallCuts = false
+				e.peer.advMSS = 65495
+				if e.wscale < 2 {
+					e.wscale, e.peer.wscale = 7, 7
+				}
+			}
 			if m > 65495-12 {
 				m = 65495 - 12
 			}
@@ -370,7 +429,12 @@ func Generate(c Chooser, p Params) *World {
 			}
 			e.segMax = m
 			e.wnd = m * pick(c, 4, 1, 2, 10, 44, 3)
-			if e.wnd > 65535 {
+			if e.jumbo {
+				// at least two segments in flight, so that one can overtake the other
+				e.wnd = m * pick(c, 2, 3, 4, 4)
+				e.forceHoldSeg = 1 + c.Intn(2) // first or second data segment (segs[0] is the SYN)
+				e.forceHold = 1 + c.Intn(3)
+			} else if e.wnd > 65535 {
 				e.wnd = 65535
 			}
 			if e.wnd < m {
@@ -379,6 +443,9 @@ func Generate(c Chooser, p Params) *World {
 			// application writes
 			n := len(e.Data)
 			k := pick(c, 1, 1, 2, 1, 3, 4)
+			if e.jumbo {
+				k = 1 // everything is written at once, so that segments leave back to back
+			}
 			rest := n
 			for j := 0; j < k; j++ {
 				sz := rest
@@ -416,6 +483,11 @@ func Generate(c Chooser, p Params) *World {
 	}
 	return w
 }
+
+// MayLoseBytes: the configuration of this run lets the capture lack stream
+// bytes (tap omission, snap length, report-only shuffles). Otherwise a hole
+// in the capture is a generator bug.
+func (w *World) MayLoseBytes() bool { return w.omitEnabled || w.P.Snaplen || w.P.Wide }
 
 // Run executes the simulation until nothing is left to happen.
 func (w *World) Run() {
@@ -560,6 +632,12 @@ func (w *World) transmit(p *packet) {
 	}
 	pt.lastTap = t
 	synfin := p.flags&(FlagSYN|FlagFIN) != 0
+	if e := p.from; e.jumbo && !w.omitEnabled && !synfin && p.seg == e.forceHoldSeg && e.segs[p.seg].tx == 1 {
+		// the large segment is overtaken by the one or two behind it
+		p.hold = e.forceHold
+		w.at(t, func() { w.tapArrive(p) })
+		return
+	}
 	switch w.drawFault() {
 	case 1: // lost before the tap
 		nf := 1
@@ -690,6 +768,20 @@ func (w *World) tapPass(p *packet) {
 			}
 		}
 		w.dataPassed++
+	}
+	if cn := e.conn; p.flags&FlagSYN != 0 && (cn.omitSyn == 2 || (cn.omitSyn == 1 && e.side == 0)) {
+		omitFrag = -1
+		w.fault(FSynOmission)
+	}
+	pt0 := &e.conn.paths[e.side]
+	if omitFrag != -2 && p.payLen > 0 {
+		pt0.gapOpen = true
+	}
+	if p.payLen >= 30000 && omitFrag == -2 {
+		w.Faults[FLargeSegment]++
+		if pt0.gapOpen || len(pt0.held) > 0 {
+			w.Faults[FLargeBehindGap]++
+		}
 	}
 	for _, i := range order {
 		if p.loseFrag == i+1 {
